@@ -49,6 +49,8 @@ SPELLINGS = {'ij': 'i', 'inner': 'i', 'Inner': 'i', 'oj': 'o', 'outer': 'o', 'OU
 
 def build(ctx):
     m = ctx.mod('_pandas')
+    # replays are fixed native batteries per obligation family (the counterexamples are interpretations of uninterpreted pandas operations)
+    ctx.default_meta = dict(replay_without_model=True)
     mr = ctx.mod('_reducer')
     bf = base_facts
     w0 = dict(k=IntVal(0))
